@@ -71,6 +71,7 @@ type EventPat struct {
 	Kind string // send | sendmsg | callee short name | callfn | chansend | go
 	Args []Expr
 	Cond Expr // optional "when" condition
+	AtLeast bool // "atleastwhen C": emitted whenever C holds, possibly also otherwise
 	Text string
 }
 
@@ -557,7 +558,7 @@ func exprTypeName(x Expr) string {
 	return ""
 }
 
-var typeArgBuiltins = map[string]int{"decoded": 1, "dyntype": 1, "unbox": 1, "box": 1, "zero": 0}
+var typeArgBuiltins = map[string]int{"decoded": 1, "dyntype": 1, "unbox": 1, "box": 1, "zero": 0, "marshaled": 1}
 
 func (p *parser) primary() Expr {
 	t := p.next()
@@ -720,6 +721,11 @@ func parseEmits(text string, where string) []EventPat {
 			continue
 		}
 		var cond Expr
+		atLeast := false
+		if strings.HasPrefix(it, "atleastwhen ") {
+			atLeast = true
+			it = "when " + strings.TrimPrefix(it, "atleastwhen ")
+		}
 		// "when COND: event"
 		if strings.HasPrefix(it, "when ") {
 			// find top-level ':' that ends condition — use " : " separator convention "when c => ev"
@@ -735,7 +741,7 @@ func parseEmits(text string, where string) []EventPat {
 		if !ok {
 			panic(fmt.Errorf("%s: event pattern must be kind(args): %s", where, it))
 		}
-		out = append(out, EventPat{Kind: c.Fn, Args: c.Args, Cond: cond, Text: it})
+		out = append(out, EventPat{Kind: c.Fn, Args: c.Args, Cond: cond, Text: it, AtLeast: atLeast})
 	}
 	return out
 }
